@@ -11,6 +11,9 @@ Regenerates lean/FairModel/Generated/AdvScheduleSrc.lean with a `SchedCfg.Cfg` r
   incIter     `self.n_iter_ += 1`
   hitMax      the test in front of the first early exit, and HOW it exits (`return self` / `break`)
   stopInit, stopAcc, cbStep, exitStop   the callback block
+  cbGuard     the guard around the callback block (`if self.callbacks_:`; any other guard is refused)
+  cbResultCheck   the check of a callback's result before it is accumulated (condition and exception kind)
+  partialFitCallbackCalls   partial_fit calls no callbacks
   body        the ORDER of train_step / increment / max_iter test / callback block in the batch loop
 plus the loop nesting (`for .. in range(epochs)` around `for .. in range(batches)`), the shuffle placement and
 guard, the `train_step` call shapes of `fit` and `partial_fit`, and the decision rules of predict.
@@ -60,6 +63,8 @@ PINNED_DEFS = {
                "if self.max_iter != -1 and self.n_iter_ >= self.max_iter: ..."),
     "stopAcc": (".orAcc", "stop = stop or result"),
     "cbStep": ("n_iter", "cb(self, step=self.n_iter_, ...)"),
+    "cbResultCheck": ("(.truthyNonBool .runtimeError)",
+                      "if result and (not isinstance(result, bool)):     raise RuntimeError(_CALLBACK_RETURNS_ERROR)"),
     "binaryRule": (".threshold .ge", "(pred >= self.threshold_value).astype(float)"),
     "multiclassRule": (".argmaxRow", "argmax(pred, axis=1); b[a, c] = 1"),
     "fitReinit": ("((!has_classes) || (!warm_start))", "fit: reinitialize = not hasattr(self, 'classes_') or not self.warm_start"),
@@ -460,12 +465,18 @@ def lift_fit(fn):
             info["inc"] = (ex_it.int(st.value), _src(st))
             events.append("incIter")
             continue
-        if isinstance(st, ast.If) and _src(st.test) == "self.callbacks_":
+        if isinstance(st, ast.If) and any(isinstance(x, ast.For) and _src(x.iter) == "self.callbacks_" for x in st.body):
+            # the callback block: the only guard understood is the truth value of `self.callbacks_` itself
+            if _src(st.test) != "self.callbacks_":
+                _bad(f"fit: the callback block is guarded by `{_src(st.test)}`, not by `self.callbacks_`")
             if "cb" in info or st.orelse:
                 _bad("fit: second callback block / else branch")
             info["cb"] = lift_callbacks(st, ex_it)
+            info["cb"]["guard"] = ("truthy", "if " + _src(st.test) + ":")
             events.append("callbacks")
             continue
+        if isinstance(st, ast.For) and _src(st.iter) == "self.callbacks_":
+            _bad("fit: the callback loop stands unguarded in the batch loop")
         if isinstance(st, ast.If) and "self.max_iter" in {_src(n) for n in ast.walk(st.test)}:
             if "max" in info or st.orelse:
                 _bad("fit: second max_iter test / else branch")
@@ -498,7 +509,7 @@ def lift_callbacks(block, ex_it):
             and isinstance(loop.target, ast.Name)):
         _bad(f"fit/callbacks: loop is not `for <cb> in self.callbacks_`: {_src(loop)[:60]}")
     cbv = loop.target.id
-    res, step, acc = None, None, None
+    res, step, acc, check = None, None, None, None
     for st in loop.body:
         if isinstance(st, ast.Assign) and len(st.targets) == 1 and isinstance(st.targets[0], ast.Name) \
                 and isinstance(st.value, ast.Call) and _src(st.value.func) == cbv:
@@ -512,9 +523,27 @@ def lift_callbacks(block, ex_it):
                 _bad("fit/callbacks: callback is not given `step=`")
             res, step = st.targets[0].id, (ex_it.int(kws["step"]), _src(kws["step"]))
             continue
-        if isinstance(st, ast.If) and not st.orelse and len(st.body) == 1 and isinstance(st.body[0], ast.Raise) \
-                and "isinstance" in _src(st.test):
-            continue     # type check of the callback's result
+        if isinstance(st, ast.If) and res is not None and res in _names_in(st.test):
+            # type check of the callback's result: which values are rejected, with which exception
+            if check is not None or acc is not None:
+                _bad("fit/callbacks: second check of the callback's result / check after the accumulation")
+            if st.orelse or len(st.body) != 1 or not isinstance(st.body[0], ast.Raise) or st.body[0].exc is None:
+                _bad(f"fit/callbacks: the check of the callback's result does not just raise: {_src(st)[:100]}")
+            exc = st.body[0].exc
+            ename = _src(exc.func) if isinstance(exc, ast.Call) else _src(exc)
+            kinds = {"RuntimeError": "runtimeError", "ValueError": "valueError", "TypeError": "typeError"}
+            if ename not in kinds:
+                _bad(f"fit/callbacks: a bad callback result raises `{ename}`")
+            nonbool = (f"not isinstance({res}, bool)",)
+            t = st.test
+            if _src(t) in nonbool:
+                check = (f"(.nonBool .{kinds[ename]})", _src(st).replace("\n", " "))
+            elif isinstance(t, ast.BoolOp) and isinstance(t.op, ast.And) and len(t.values) == 2 \
+                    and sorted(_src(v) for v in t.values) == sorted([res, nonbool[0]]):
+                check = (f"(.truthyNonBool .{kinds[ename]})", _src(st).replace("\n", " "))
+            else:
+                _bad(f"fit/callbacks: condition on the callback's result of unknown shape: `{_src(t)}`")
+            continue
         if isinstance(st, ast.Assign) and len(st.targets) == 1 and _src(st.targets[0]) == flag:
             if acc is not None or res is None:
                 _bad("fit/callbacks: flag is updated twice / before the call")
@@ -536,7 +565,9 @@ def lift_callbacks(block, ex_it):
         _bad("fit/callbacks: no callback call / no accumulation found")
     if not (isinstance(fin, ast.If) and not fin.orelse and _src(fin.test) == flag):
         _bad(f"fit/callbacks: final test of unknown shape: {_src(fin)[:60]}")
-    return dict(stopInit="true" if init.value.value else "false", acc=acc, step=step,
+    if check is None:
+        check = (".coerce", "no check of the callback's result")
+    return dict(stopInit="true" if init.value.value else "false", acc=acc, step=step, check=check,
                 exit=_exit_kind(fin.body, "fit/callbacks"))
 
 
@@ -561,6 +592,8 @@ def lift_partial_fit(fn):
         _bad("partial_fit: does not return self")
     if any(isinstance(n, (ast.For, ast.While)) for n in ast.walk(fn)):
         _bad("partial_fit: contains a loop")
+    if any(isinstance(n, ast.Attribute) and n.attr in ("callbacks_", "callbacks") for n in ast.walk(fn)):
+        _bad("partial_fit: refers to the callbacks (the pinned source calls none)")
     return 1
 
 
@@ -937,6 +970,9 @@ def adv_schedule(repo):
           "  nIterInit := nIterInit", "  sliceLo := sliceLo", "  sliceHi := sliceHi", "  incIter := incIter", "  hitMax := hitMax",
           "  exitMax := exitMax", "  stopInit := stopInit", "  stopAcc := stopAcc", "  cbStep := cbStep", "  exitStop := exitStop",
           "  body := body", ""]
+    d("cbGuard", "", "CbGuard", "." + cb["guard"][0], cb["guard"][1] + " around the callback block of fit")
+    d("cbResultCheck", "", "ResultCheck", cb["check"][0], cb["check"][1])
+    d("partialFitCallbackCalls", "", "Nat", "0", "partial_fit does not mention self.callbacks_")
     d("shuffleAt", "", "ShuffleAt", "." + r["shuffleAt"], "position of `X, y, A = self.backendEngine_.shuffle(X, y, A)`")
     d("shuffleGuarded", "", "Bool", "true" if r["shuffleGuarded"] else "false", "the shuffle stands under `if self.shuffle:`")
     d("partialFitTrainSteps", "", "Nat", str(npf),
